@@ -106,7 +106,9 @@ func c19XOFMachine(t *rapid.T, ev *evProp, impl xofImpl) {
 		x kyber.XOF
 		m *xofModel
 	}
-	insts := []*inst{{impl.mk(append([]byte(nil), seed...)), &xofModel{origSeed: seed, seed: seed, factory: true}}}
+	// the buffer handed to New belongs to the caller, who may wipe or reuse it afterwards
+	seedBuf := append([]byte(nil), seed...)
+	insts := []*inst{{impl.mk(seedBuf), &xofModel{origSeed: seed, seed: seed, factory: true}}}
 	history := []string{fmt.Sprintf("%s.New(seed %d bytes %x)", impl.name, seedLen, seed)}
 	nsteps := rapid.IntRange(1, 30).Draw(t, "nsteps")
 	chunk := func(l string) int {
@@ -127,8 +129,18 @@ func c19XOFMachine(t *rapid.T, ev *evProp, impl xofImpl) {
 		if in.m.factory {
 			ops = append(ops, "Reset")
 		}
+		if len(seedBuf) > 0 {
+			ops = append(ops, "ScribbleSeed")
+		}
 		op := rapid.SampledFrom(ops).Draw(t, "op")
 		switch op {
+		case "ScribbleSeed":
+			// the caller overwrites the slice it passed to New: no effect on any instance
+			for j := range seedBuf {
+				seedBuf[j] ^= 0xff
+			}
+			history = append(history, "caller overwrites the seed buffer it passed to New")
+			nontrivial = true
 		case "Write":
 			n := chunk("n")
 			if n < 0 {
@@ -136,9 +148,13 @@ func c19XOFMachine(t *rapid.T, ev *evProp, impl xofImpl) {
 			}
 			d := rapid.SliceOfN(rapid.Byte(), n, n).Draw(t, "data")
 			history = append(history, fmt.Sprintf("x%d.Write(%d bytes)", i, n))
-			w, err := in.x.Write(append([]byte(nil), d...))
+			wb := append([]byte(nil), d...)
+			w, err := in.x.Write(wb)
 			if err != nil || w != n {
 				fail(op, "Write returned %d, %v", w, err)
+			}
+			for j := range wb { // the written buffer is the caller's again
+				wb[j] ^= 0xff
 			}
 			in.m.data = append(in.m.data, d...)
 		case "Read":
